@@ -110,8 +110,8 @@ func respBody(respID, seq, cmdID int) []byte {
 	switch respID {
 	case 0x0001:
 		return append(b, byte(cmdID>>8), byte(cmdID), 0)
-	case 0x0104:
-		return append(b, 0)
+	case 0x0104: // two parameters: an unconfigured APN (id 0x0010, length 0) and the heartbeat interval
+		return append(b, 2, 0, 0, 0, 0x10, 0, 0, 0, 0, 0x01, 4, 0, 0, 0, 30)
 	case 0x0805:
 		return append(b, 0, 0, 0)
 	case 0x1205:
@@ -145,6 +145,25 @@ func (t *term) serve(r *rand.Rand, sc termScript, done <-chan struct{}) {
 				rid = 0x0001 // a terminal may answer any command with the general response: it echoes the serial and the command id
 			}
 			answer := func(s int) { t.send(t.frame(rid, respBody(rid, s, cmd))) }
+			if rid == 0x1205 && r.Intn(2) == 0 {
+				// a resource list too long for one frame: the response comes as three sub-packages, the second one twice
+				body := append(respBody(0x1205, seq, cmd)[:2], 0, 0, 0, 2)
+				body = append(body, make([]byte, 56)...)
+				for k := range body[6:] {
+					body[6+k] = byte(k)
+				}
+				cut := [][]byte{body[:20], body[20:41], body[41:]}
+				var frames [][]byte
+				for k, no := range []int{1, 2, 2, 3} {
+					_ = k
+					frames = append(frames, buildFrame(hdrSpec{id: 0x1205, serial: t.nextSerial(), ver: t.ver, verbyte: 1, frag: 1, total: 3, no: no, phone: t.phone, body: cut[no-1]}))
+				}
+				answer = func(s int) {
+					for _, f := range frames {
+						t.send(f)
+					}
+				}
+			}
 			switch mode {
 			case "prompt":
 				answer(seq)
@@ -222,6 +241,9 @@ func init() {
 						k := int(kid.Add(1))
 						cmd := c12Cmds[rr.Intn(len(c12Cmds))]
 						tmo := time.Duration([]int{30, 80, 200, 600, 1500}[rr.Intn(5)]) * time.Millisecond
+						if modes[ti%len(modes)] == "prompt" && rr.Intn(5) == 0 {
+							tmo = 0 // the default time-out (the terminal answers at once)
+						}
 						if rr.Intn(12) == 0 {
 							l.sendActive(t.idx, k, key+"9", cmd, randBytes(rr, rr.Intn(20)), tmo) // offline key: not-exist at once
 							continue
@@ -352,6 +374,34 @@ func init() {
 			l.rec.log(t.idx, "D", "assert", "ok", !(ok1 && ok2) || (got["resp"] == 1 && got["timeout"] == 1), "what", "OneResponseGivenToTwoCallers", "kinds", r1.Kind+","+r2.Kind)
 			time.Sleep(50 * time.Millisecond)
 		}
+		// (a5) an application that keeps one request object and sends it to one terminal after another (only the key changes):
+		// each terminal gets the command under its own phone number
+		if len(terms) >= 2 {
+			am := service.NewActiveMessage("", consts.P8104QueryTerminalParams, nil, time.Second)
+			for _, t := range []*term{terms[0], terms[1], terms[0]} {
+				am.Key = string(asciiDigits(t.phone))
+				resCh := make(chan cmdResult, 1)
+				k := int(kid.Add(1))
+				go func() { resCh <- l.sendActiveAM(t.idx, k, am) }()
+				okAddr := false
+				dl := time.After(2 * time.Second)
+			waitAddr:
+				for {
+					select {
+					case fr := <-t.recvCh:
+						if dv, _ := decodeView(fr); dv.Ok && dv.ID == 0x8104 {
+							okAddr = bytes.Equal(bytes.TrimLeft(dv.Digits, "\x00"), bytes.TrimLeft(digitsOf(string(asciiDigits(t.phone))), "\x00"))
+							t.send(t.frame(0x0104, respBody(0x0104, dv.Serial, 0x8104)))
+							break waitAddr
+						}
+					case <-dl:
+						break waitAddr
+					}
+				}
+				res := <-resCh
+				l.rec.log(t.idx, "D", "assert", "ok", okAddr && res.Kind == "resp", "what", "ReusedRequestSentUnderAnotherTerminalsNumber", "kind", res.Kind)
+			}
+		}
 		// (a3) a caller without a time-out whose terminal takes longer than any default time-out (3.4 s): it gets the response
 		{
 			t := terms[0]
@@ -477,6 +527,7 @@ func init() {
 			{"timeouts-of-different-lengths-in-adverse-order", nil},
 			{"burst-in-one-segment-then-reset", nil},
 			{"messages-then-a-close-arrive-while-the-writer-is-held-and-callers-without-a-time-out-wait", nil},
+			{"a-duplicate-is-refused-then-a-command-for-the-terminal-that-was-there-first", nil},
 			{"burst-then-a-damaged-frame", nil},
 			{"close-before-join", nil},
 			{"close-mid-frame", nil},
@@ -698,6 +749,34 @@ func init() {
 						wg.Wait()
 						l.writeHold.Store(nil)
 					}
+				case "a-duplicate-is-refused-then-a-command-for-the-terminal-that-was-there-first":
+					// a second connection presents the key (a heartbeat as its first message) and is refused; callers of the key - with
+					// and without a time-out - still reach the terminal that holds it
+					join()
+					d := l.dial(phone, 0)
+					l.rec.log(d.idx, "D", "scenario", "name", sc.name)
+					d.send(d.frame(0x0002, nil))
+					d.waitRecv(1, 30*time.Millisecond)
+					d.close(false)
+					time.Sleep(60 * time.Millisecond)
+					for len(t.recvCh) > 0 {
+						<-t.recvCh
+					}
+					call(t, key, -time.Millisecond, &wg)
+					call(t, key, 800*time.Millisecond, &wg)
+					for answered := 0; answered < 2; {
+						select {
+						case fr := <-t.recvCh:
+							if dv, _ := decodeView(fr); dv.Ok && dv.ID == 0x8104 {
+								t.send(t.frame(0x0104, respBody(0x0104, dv.Serial, 0x8104)))
+								answered++
+							}
+						case <-time.After(1500 * time.Millisecond):
+							answered = 2
+						}
+					}
+					wg.Wait()
+					t.close(false)
 				case "burst-then-a-damaged-frame":
 					// valid frames in one segment, a frame with a wrong check code in the next one a moment later: the reader gives the
 					// connection up while the writer is still answering what it was handed
@@ -846,6 +925,42 @@ func init() {
 				}(kid)
 			}
 			wg.Wait()
+		}
+		// a storm of calls for keys that are not there, while connections come and go (the manager's queue holds ten operations):
+		// every caller is told at once
+		{
+			var wg sync.WaitGroup
+			stopJoin := make(chan struct{})
+			go func() {
+				for i := 0; ; i++ {
+					select {
+					case <-stopJoin:
+						return
+					default:
+					}
+					ph := []byte{0x01, 0x36, 0x00, 0x00, byte(0x40 + i%5), byte(i % 90)}
+					t := l.dial(ph, 0)
+					t.send(t.frame(0x0002, nil))
+					t.waitRecv(1, 20*time.Millisecond)
+					t.close(i%2 == 0)
+				}
+			}()
+			for i := 0; i < 80; i++ {
+				kid++
+				wg.Add(1)
+				go func(k, i int) {
+					defer wg.Done()
+					tmo := time.Duration(-1) * time.Millisecond
+					if i%3 == 0 {
+						tmo = 300 * time.Millisecond
+					}
+					r := l.sendActive(-1, k, fmt.Sprintf("absent%d", i%7), consts.P8104QueryTerminalParams, nil, tmo)
+					l.rec.log(1, "D", "assert", "ok", r.Kind == "notexist" && r.Ms < 1000, "what", "CallerOfADepartedKeyNotToldAtOnce", "key", "absent", "kind", r.Kind, "ms", r.Ms, "tmo", int(tmo/time.Millisecond))
+				}(kid, i)
+			}
+			wg.Wait()
+			close(stopJoin)
+			time.Sleep(100 * time.Millisecond)
 		}
 		time.Sleep(100 * time.Millisecond)
 		l.dump(a[0])
